@@ -2,14 +2,24 @@ module verif/harness
 
 go 1.23
 
-require shanhu.io/g v0.0.0
+require (
+	github.com/gorilla/websocket v1.5.1
+	golang.org/x/sys v0.14.0
+	shanhu.io/g v0.0.0
+)
 
 require (
-	github.com/gorilla/websocket v1.5.1 // indirect
+	github.com/dustin/go-humanize v1.0.1 // indirect
+	github.com/google/uuid v1.4.0 // indirect
+	github.com/mattn/go-isatty v0.0.20 // indirect
+	github.com/remyoudompheng/bigfft v0.0.0-20230129092748-24d4a6f8daec // indirect
 	golang.org/x/crypto v0.15.0 // indirect
 	golang.org/x/net v0.18.0 // indirect
-	golang.org/x/sys v0.14.0 // indirect
 	golang.org/x/term v0.14.0 // indirect
+	modernc.org/libc v1.32.0 // indirect
+	modernc.org/mathutil v1.6.0 // indirect
+	modernc.org/memory v1.7.2 // indirect
+	modernc.org/sqlite v1.27.0 // indirect
 )
 
 replace shanhu.io/g => /repo
